@@ -15,6 +15,7 @@ chosen).  The correspondence stream and the run-to-run / allocator-to-allocator 
 to the crate on this point.
 -/
 import ClvmProofs.Lemmas.BackrefCodec
+import ClvmProofs.Lemmas.BackrefTokenLen
 
 namespace Clvm.Props.C17
 open Clvm Clvm.Backref Clvm.Serde Clvm.Serde.Backref Clvm.Serde.ReadCache Clvm.Serde.SerBr
@@ -129,6 +130,16 @@ theorem ser_de_ser (t t' : Tree) (b rest' : Bytes) (c c' : Ctr)
       rw [hw]
       simp only [hser]
 
+/-- **A back-reference token is never longer than what it replaces** (step (a) of *never grows*):
+when `find_path` returns path bytes `b` for a node whose classic serialization is `sl` bytes long,
+the token `0xfe ++ write_atom(b)` is at most `sl` bytes long — `atom_length_bits(|path| + 1)`,
+the number `find_path` compares with `sl - 1`, *is* the length of `write_atom`'s output
+(`path_token_length`).  Needs `1 ≤ sl` (every serialization has at least one byte). -/
+theorem backref_token_le (s : RCL) (hs : RInv s) (id : Tree) (sl : Nat) (b : Bytes) (hsl : 1 ≤ sl)
+    (h : s.findPath id sl = .ok (some b)) : 1 + (Classic.atomEnc b).length ≤ sl := by
+  obtain ⟨path, hb, _, pl, hpl, hle⟩ := find_path_sound s hs id sl b h
+  rw [path_token_length path b pl hb hpl]; omega
+
 /-! ### parts of C17 that are stated but not proved here
 
 They are checked on the implementation by the `backref_c17` oracle (`ser_br_never_grows`,
@@ -137,9 +148,8 @@ stream. -/
 
 /-- *Never grows* (not proved).  What is proved is its core inequality, the last conjunct of
 `find_path_sound`: a back-reference is emitted only if `atom_length_bits(path bits) ≤
-serialized_length(node) - 1`.  Missing: (a) `atom_length_bits(|path| + 1)` is the length of
-`write_atom`'s output for the path bytes (needs "the single path byte is < 0x80 iff the path has
-fewer than 7 steps", a byte-level fact in the style of `Lemmas/BackrefCodec.lean`), (b) the sum over
+serialized_length(node) - 1`.  Step (a), `atom_length_bits(|path| + 1)` = length of `write_atom`'s
+output for the path bytes, is proved (`backref_token_le`).  Missing: (b) the sum over
 the write stack, (c) `Classic.cacheSerializedLength = |ser|` (C15 `len_cache`). -/
 def NeverGrows : Prop :=
   ∀ (t : Tree) (b : Bytes), t.atomsBelow (2 ^ 32) → nodeToBytesBackrefs t = .ok b →
